@@ -83,6 +83,9 @@ class State(object):
             for k, v in self.envs.get(frame.fid, {}).items():
                 if is_const(v) and isinstance(v[1], (bool, type(None))):
                     consts.append((k, v))
+                elif v[0] == "opaquedict":
+                    # "this local dict has been filled" distinguishes states
+                    consts.append((k, ("const", "<filled>")))
         return (self.dirty, self.wrote, frozenset(consts),
                 frozenset(self.heap.items()), frozenset(self.facts.items()),
                 self.rowfacts, self.fresh)
